@@ -260,6 +260,17 @@ def g_cmap_r(rng, level=0, n_random=100):
         yield {'self': _rand_map(rng, N), 'r': int(rng.integers(0, N + 1))}
 
 
+@gen(ST + 'CliffordMap.inverse')
+def g_inverse(rng, level=0, n_random=150):
+    _, st = _pc()
+    for k in range(n_random):
+        N = int(rng.integers(1, 4))
+        m = _rand_map(rng, N)
+        if k % 5 == 4:          # arbitrary (mostly non-symplectic, often singular) tables: the contract is about GF(2) inversion only
+            m = st.CliffordMap(bits(rng, 2 * N, 2 * N), 2 * bits(rng, 2 * N))
+        yield {'self': m}
+
+
 @gen(ST + 'CliffordMap.compose')
 def g_compose(rng, level=0, n_random=100):
     for _ in range(n_random):
@@ -510,3 +521,37 @@ def g_gate_map_state(rng, level=0, n_random=100):
         g = ci.CliffordGate(*range(N))
         g.forward_map = _rand_map(rng, N)
         yield {'self': g, 'obj': _rand_state(rng, N)}
+
+
+@gen(U + 'z2inv')
+def g_z2inv(rng, level=0, n_random=300):
+    # all 1x1 and 2x2 binary matrices (singular ones raise ValueError: allowed), then random ones -- half of them made
+    # invertible by construction (products of elementary row operations applied to a permutation matrix)
+    for n in (1, 2):
+        for b in itertools.product([0, 1], repeat=n * n):
+            yield {'mat': np.array(b, dtype=np.int64).reshape(n, n)}
+    for k in range(n_random):
+        n = int(rng.integers(1, 7))
+        if k % 2:
+            yield {'mat': bits(rng, n, n)}
+            continue
+        m = np.eye(n, dtype=np.int64)[rng.permutation(n)]
+        for _ in range(3 * n):
+            i, j = rng.integers(0, n, 2)
+            if i != j:
+                m[i] = (m[i] + m[j]) % 2
+        yield {'mat': m}
+
+
+@gen(U + 'z2rank')
+def g_z2rank(rng, level=0, n_random=400):
+    # all binary matrices up to 2x3 / 3x2, then random shapes up to 6x6 (including empty ones), sparse and dense
+    for nr, nc in ((1, 1), (1, 2), (2, 1), (2, 2), (2, 3), (3, 2)):
+        for b in itertools.product([0, 1], repeat=nr * nc):
+            yield {'mat': np.array(b, dtype=np.int64).reshape(nr, nc)}
+    for k in range(n_random):
+        nr, nc = int(rng.integers(0, 7)), int(rng.integers(0, 7))
+        m = bits(rng, nr, nc)
+        if k % 3 == 0 and nr and nc:
+            m = m * bits(rng, nr, nc)        # sparser: more missing pivots
+        yield {'mat': m}
